@@ -43,7 +43,7 @@ META = {
 }
 
 MANIFEST = {
-    'level_text': 'Joliet scenarios executed by the verifier on the real code (symbolic file contents) and decoded by an independent reader from the supplementary descriptor alone: exactly the Joliet tree the edits imply with names equal to the UTF-16BE of the given names, independent of the ISO9660 tree, every Joliet file on the same sectors as its ISO9660 link and byte for byte the given content, own consistent path tables (L = M, standard order, declared size), escape sequence of the requested level, identifiers of at most 64 units, sizes agreeing with the primary descriptor; reopened, re-mastered identically and edited. Deductive contracts on joliet_vd_factory, _joliet_name_and_parent_from_path (over-long names refused, accepted names recorded as exactly their UTF-16BE form, for every ASCII content of each length), the shared record layouts and ordering, and refusal scenarios (Joliet file / non-empty directory given to rm_directory, duplicate link). One defect found and repaired (K15: rm_directory dropped non-empty Joliet directories).',
+    'level_text': 'Joliet scenarios executed by the verifier on the real code (symbolic file contents) and decoded by an independent reader from the supplementary descriptor alone: exactly the Joliet tree the edits imply with names equal to the UTF-16BE of the given names, independent of the ISO9660 tree, every Joliet file on the same sectors as its ISO9660 link and byte for byte the given content, own consistent path tables (L = M, standard order, declared size), escape sequence of the requested level, identifiers of at most 64 units, sizes agreeing with the primary descriptor; reopened, re-mastered identically and edited; the same for three random Joliet edit histories (thorough: 45). Deductive contracts on joliet_vd_factory, _joliet_name_and_parent_from_path (over-long names refused, accepted names recorded as exactly their UTF-16BE form, for every ASCII content of each length), the shared record layouts and ordering, and refusal scenarios (Joliet file / non-empty directory given to rm_directory, duplicate link). One defect found and repaired (K15: rm_directory dropped non-empty Joliet directories).',
     'level_note': 'Scenario part bounded (9 scripts) but symbolic in all file contents; name conversion proved per length for ASCII, sampled for other scripts. Trusted: pyvc, the independent reader, CPython UTF-8/UTF-16 codecs as modelled.',
     'design_ref': 'DESIGN.md section 4 C09',
 }
